@@ -558,6 +558,27 @@ def _sync_module_outputs(old_list, new_list):
             _sync_module_outputs(fo.inputs, fn_.inputs)
 
 
+def stepwise_twin(world, hid, H):
+    """a hedger with the same model but an extra, ignored prev_hedge input: forces the stepwise
+    branch of compute_hedge while computing the same function (C03's observation point)"""
+    s = copy.deepcopy(world.spec_of("hedgers", hid))
+    s["inputs"] = list(s["inputs"]) + ["prev_hedge"]
+    live = world.hedgers[hid]
+    inner = live.model.inner if isinstance(live.model, RecModel) else live.model
+    h = world.build_hedger(s, model=DropLast(inner, H), criterion=live.criterion)
+    _sync_module_outputs(live.inputs, h.inputs)
+    return h
+
+
+def cast_module_outputs(flist, dtype):
+    """Hedger.inputs is not a Module, so hedger.to() does not reach modules inside ModuleOutput
+    features; a user has to cast them as well."""
+    for f in flist.features:
+        if isinstance(f, pff.ModuleOutput):
+            f.to(dtype)
+            cast_module_outputs(f.inputs, dtype)
+
+
 def eff_dtype(primary):
     """dtype new simulations of this primary are produced in."""
     return primary.dtype if primary.dtype is not None else torch.get_default_dtype()
